@@ -327,7 +327,7 @@ func (p *Validator) validateBuffer(buf []byte, last bool) error {
 		}
 	}
 	if last && (0 < len(p.stack) || len(p.mode) == 256) { // valid finishing maps are one byte longer
-		return p.newError(off, "incomplete JSON")
+		return p.newError(len(buf), "incomplete JSON")
 	}
 	return nil
 }
